@@ -449,3 +449,40 @@ def run(ctx):
         if bad:
             ctx.report('property', bad, case)
 
+    # ---- integer variables keep their type and their exact values through an extraction that drops the points outside the model
+    # (identifiers above 2**53 do not survive a detour through floating point)
+    from emsarray.operations import point_extraction as pe_
+    for trial in range(3 if quick else 12):
+        d = gen.cf1d(rng, ny=rng.randint(3, 4), nx=rng.randint(3, 5))
+        ds = d.ds
+        gdims = d.spec['kinds']['face']
+        shape = [ds.sizes[g] for g in gdims]
+        ncell = int(numpy.prod(shape))
+        ds['cell_id'] = (list(gdims), (numpy.arange(ncell, dtype='i8') + 2 ** 53 + 1).reshape(shape))
+        ds['flag'] = (list(gdims), (numpy.arange(ncell, dtype='i2') % 7).reshape(shape))
+        ds['up'] = (list(gdims), (numpy.arange(ncell) % 2 == 0).reshape(shape))
+        with warnings.catch_warnings():
+            warnings.simplefilter('ignore')
+            polys = pm.impl_polygons(ds.ems)
+        inside = [k for k, p_ in enumerate(polys) if p_ is not None][:3]
+        pts = [(lambda c_: (round(c_.x * 64) / 64, round(c_.y * 64) / 64))(shapely.Polygon(polys[k]).representative_point()) for k in inside]
+        xs = [x for p_ in polys if p_ is not None for x, y in p_]
+        ys = [y for p_ in polys if p_ is not None for x, y in p_]
+        pts.insert(1, (max(xs) + 3.0, max(ys) + 3.0))
+        df = pandas.DataFrame({'lon': [x for x, y in pts], 'lat': [y for x, y in pts]})
+        case = {'dataset': d.spec['label'], 'points': pts, 'policy': 'drop', 'variables': {'cell_id': 'int64', 'flag': 'int16', 'up': 'bool'}}
+        ctx.case((d.spec['label'], 'integer variables', trial), True)
+        ctx.count('extract_dataframe:integer variables, drop')
+        with warnings.catch_warnings():
+            warnings.simplefilter('ignore')
+            r = attempt(lambda: pe_.extract_dataframe(ds, df, ('lon', 'lat'), missing_points='drop').load())
+        if r[0] != 'ok':
+            ctx.report('property', f'extract_dataframe failed: {r[1]}', case)
+            continue
+        for nm in ('cell_id', 'flag', 'up'):
+            want = ds[nm].values.reshape(-1)[inside]
+            got = r[1][nm].values
+            if got.dtype != ds[nm].dtype or not numpy.array_equal(got, want):
+                ctx.report('property', f'extract_dataframe (drop): {nm} comes back as {got.dtype} {got.tolist()}, stored {ds[nm].dtype} '
+                           f'{want.tolist()}', case)
+                break
